@@ -1136,6 +1136,10 @@ class SessionTransaction(_StateChange, TransactionalContext):
                 self.session.identity_map.replace(s)
 
         for s in set(self._deleted).union(self.session._deleted):
+            if s.session_id != self.session.hash_key:
+                # e.g. make_transient() of an object in the deleted state
+                # while a SAVEPOINT was open: it left the session
+                continue
             self.session._update_impl(s, revert_deletion=True)
 
         assert not self.session._deleted
